@@ -662,7 +662,8 @@ func (e *l2Env) coJudge(p coPlan, subs []*coSub, shapes []string) {
 		worst := ""
 		for _, s := range subs {
 			if s.cancelled && (worst == "" || s.unread >= 21) {
-				worst = fmt.Sprintf("%s-cancelled-%s-unread-%s", s.plan.Kind, s.moment, coBucket(s.unread))
+				worst = fmt.Sprintf("%s-cancelled-%s-%s", s.plan.Kind, s.moment,
+					map[bool]string{true: "more-unread-than-buffered", false: "unread-fits-buffer"}[s.unread >= 21])
 			}
 		}
 		if worst == "" {
